@@ -73,6 +73,13 @@ fn after_open(obj: &dicom_object::DefaultDicomObject) {
     let mut sink = std::io::sink();
     let _ = dicom_dump::DumpOptions::new().dump_file_to(&mut sink, obj);
     let _ = dicom_dump::DumpOptions::new().format(dicom_dump::DumpFormat::Json).dump_file_to(&mut sink, obj);
+    // the width-limited paths (what the command line tool uses on a terminal): values are abbreviated.
+    // The worker's stdout is /dev/null.
+    let _ = dicom_dump::DumpOptions::new().width(24).dump_file(obj);
+    let _ = dicom_dump::DumpOptions::new().width(61).dump_file(obj);
+    for elem in obj.iter() {
+        for w in [20u32, 37, 80] { let _ = dicom_dump::dump_element(&mut sink, elem, w, 1, false, false); }
+    }
     if let Ok(px) = obj.decode_pixel_data() { let _ = px.to_vec::<u8>(); let _ = px.number_of_frames(); }
     let _ = obj.decode_pixel_data_frame(0);
     let _ = obj.decode_pixel_data_frame(1);
@@ -93,7 +100,12 @@ pub fn run_entry(entry: &str, ts_uid: &str, input: &[u8]) -> &'static str {
         "ds_eager" => {
             let ts = match TransferSyntaxRegistry.get(ts_uid) { Some(t) => t, None => return "err" };
             match InMemDicomObject::read_dataset_with_ts(Cursor::new(input), ts) {
-                Ok(obj) => { let mut s = std::io::sink(); let _ = dicom_dump::dump_object_to(&mut s, &obj); "ok" }
+                Ok(obj) => {
+                    let mut s = std::io::sink(); let _ = dicom_dump::dump_object_to(&mut s, &obj);
+                    let _ = dicom_dump::DumpOptions::new().width(33).dump_object(&obj);
+                    for elem in obj.iter() { for w in [20u32, 45] { let _ = dicom_dump::dump_element(&mut s, elem, w, 0, false, false); } }
+                    "ok"
+                }
                 Err(_) => "err",
             }
         }
